@@ -327,6 +327,45 @@ func checkTxValue(t TB, tx *wire.MsgTx) {
 			t.Fatalf("TxOut[%d].SerializeSize() = %d want %d", i, out.SerializeSize(), want)
 		}
 	}
+	// the standalone output codec (WriteTxOut / ReadTxOut, used by psbt and the taproot sighash
+	// code): every output is written, read back and KEPT while further outputs and the whole
+	// transaction are decoded; a decoded value must stay what it was decoded to
+	{
+		idxs := make([]int, 0, 10)
+		for i := range tx.TxOut {
+			if i < 8 || i >= len(tx.TxOut)-2 {
+				idxs = append(idxs, i)
+			}
+		}
+		kept := make([]*wire.TxOut, len(idxs))
+		for k, i := range idxs {
+			out := tx.TxOut[i]
+			want := binary.LittleEndian.AppendUint64(nil, uint64(out.Value))
+			want = wirefmt.AppendVarInt(want, uint64(len(out.PkScript)))
+			want = append(want, out.PkScript...)
+			var ob bytes.Buffer
+			if err := wire.WriteTxOut(&ob, 0, tx.Version, out); err != nil || !bytes.Equal(ob.Bytes(), want) {
+				t.Fatalf("WriteTxOut(TxOut[%d]): err=%v %s", i, err, diffBytes(want, ob.Bytes()))
+			}
+			back := &wire.TxOut{}
+			if err := wire.ReadTxOut(bytes.NewReader(want), 0, tx.Version, back); err != nil {
+				t.Fatalf("ReadTxOut of the encoding of TxOut[%d] failed: %v", i, err)
+			}
+			kept[k] = back
+		}
+		if len(tx.TxIn) > 0 { // (a transaction without inputs has no witness-layout decoding, see the plan)
+			var again wire.MsgTx
+			if err := again.Deserialize(bytes.NewReader(wbytes)); err != nil {
+				t.Fatalf("Deserialize of its own serialization failed: %v\ntx: %s", err, desc())
+			}
+		}
+		for k, i := range idxs {
+			if kept[k].Value != tx.TxOut[i].Value || !bytes.Equal(kept[k].PkScript, tx.TxOut[i].PkScript) {
+				t.Fatalf("the output decoded by ReadTxOut from the encoding of TxOut[%d] is no longer equal to it after %d later decodes: value %d script %s, encoded value %d script %s",
+					i, len(idxs)-k, kept[k].Value, hexShort(kept[k].PkScript), tx.TxOut[i].Value, hexShort(tx.TxOut[i].PkScript))
+			}
+		}
+	}
 	if tx.HasWitness() != wirefmt.HasWitness(tx) {
 		t.Fatalf("HasWitness() = %v", tx.HasWitness())
 	}
